@@ -12,8 +12,9 @@
 (*   {"ev":"PktT","c","n","tp","pc"} {"ev":"NatRemove","c"}                *)
 (*   {"ev":"Decreased","n"}  a counter went down between two scrapes       *)
 (*   {"ev":"Scrape","obs":{opened, closed[s][k+1], durn[s], tbytes[k+1][d],*)
-(*        tloc[d], proben, probeb, natadd, natrem, upkts[s], ubytes[k+1][d],*)
-(*        uloc[d], other}}                                                 *)
+(*        proben, probeb, natadd, natrem, upkts[s], ubytes[k+1][d],        *)
+(*        openedl[x], closedl[x], tlocb[x][d], upktsl[x][s], ulocb[x][d],  *)
+(*        other}}   x = location class of the client (by construction)     *)
 (* viols: per trace the first scrape whose exported values contradict the  *)
 (* property layer (sums of the per-connection facts of the call history).  *)
 (* The mechanism layer of MetricsCount has the same totals by construction *)
@@ -30,7 +31,9 @@ TraceInit == Init /\ l = 1 /\ viols = <<>> /\ tv = FALSE /\ ntraces = 0
 
 TrReset == /\ IsEvent("Reset")
            /\ conn' = [c \in Conns |-> [kind |-> "none", st |-> "none"]]
-           /\ rem' = [c \in Conns |-> 0] /\ nconn' = 0
+           /\ rem' = [c \in Conns |-> 0] /\ cloc' = [c \in Conns |-> 0] /\ nconn' = 0
+           /\ openedL' = [x \in Locs |-> 0] /\ closedL' = [x \in Locs |-> 0] /\ tcpBytesL' = [x \in Locs |-> Zero4]
+           /\ udpPktsL' = [x \in Locs |-> [s \in 1..NSU |-> 0]] /\ udpBytesL' = [x \in Locs |-> Zero4]
            /\ opened' = 0 /\ closedCnt' = [s \in 1..NST |-> [k \in Keys0 |-> 0]]
            /\ tcpBytes' = [k \in Keys0 |-> Zero4] /\ probeCnt' = 0 /\ probeSum' = 0
            /\ natAdded' = 0 /\ natRemoved' = 0 /\ udpPkts' = [s \in 1..NSU |-> 0]
@@ -42,11 +45,11 @@ TrReset == /\ IsEvent("Reset")
            /\ UNCHANGED <<viols, shown, nops, tr>>
 
 D4(q) == [x \in Dirs |-> q[x]]
-TrOpen   == IsEvent("Open")   /\ OpenCore(Trace[l].c) /\ Keep
+TrOpen   == IsEvent("Open")   /\ OpenCore(Trace[l].c, Trace[l].loc) /\ Keep
 TrAuth   == IsEvent("Auth")   /\ AuthCore(Trace[l].c, Trace[l].key) /\ Keep
 TrProbe  == IsEvent("Probe")  /\ ProbeCore(Trace[l].c, Trace[l].b) /\ Keep
 TrClose  == IsEvent("Close")  /\ CloseCore(Trace[l].c, Trace[l].st, D4(Trace[l].d)) /\ Keep
-TrNatAdd == IsEvent("NatAdd") /\ NatAddCore(Trace[l].c, Trace[l].key) /\ Keep
+TrNatAdd == IsEvent("NatAdd") /\ NatAddCore(Trace[l].c, Trace[l].key, Trace[l].loc) /\ Keep
 TrPktC   == IsEvent("PktC")   /\ PktCCore(Trace[l].c, Trace[l].st, Trace[l].n, Trace[l].cp, Trace[l].pt) /\ Keep
 TrPktT   == IsEvent("PktT")   /\ PktTCore(Trace[l].c, Trace[l].n, Trace[l].tp, Trace[l].pc) /\ Keep
 TrNatRemove == IsEvent("NatRemove") /\ NatRemoveCore(Trace[l].c) /\ Keep
@@ -54,7 +57,7 @@ TrNatRemove == IsEvent("NatRemove") /\ NatRemoveCore(Trace[l].c) /\ Keep
 Flag(k) == /\ viols' = IF ~tv /\ k # "" THEN Append(viols, [line |-> l, kind |-> k]) ELSE viols
            /\ tv' = (tv \/ k # "")
 TrDecreased == /\ IsEvent("Decreased") /\ Flag("counter-decreased")
-               /\ UNCHANGED <<conn, rem, nconn, mech, ghost, ntraces, shown, nops, tr>>
+               /\ UNCHANGED <<conn, rem, cloc, nconn, mech, ghost, ntraces, shown, nops, tr>>
 
 RECURSIVE SumSeq(_, _)
 SumSeq(q, n) == IF n = 0 THEN 0 ELSE q[n] + SumSeq(q, n - 1)
@@ -73,11 +76,13 @@ TrScrape ==
                  ELSE IF o.natadd # IdealNatAdded \/ o.natrem # IdealNatRemoved THEN "udp-nat-count-mismatch"
                  ELSE IF \E s \in 1..NSU : o.upkts[s] # IdealUdpPkts[s] THEN "udp-packets-mismatch"
                  ELSE IF \E k \in Keys0, d \in Dirs : o.ubytes[k + 1][d] # IdealUdpBytes[k][d] THEN "udp-bytes-mismatch"
-                 ELSE IF \E d \in Dirs : o.tloc[d] # SumF([k \in Keys0 |-> o.tbytes[k + 1][d]], Keys0)
-                                         \/ o.uloc[d] # SumF([k \in Keys0 |-> o.ubytes[k + 1][d]], Keys0) THEN "location-sum-mismatch"
+                 ELSE IF \E x \in Locs : o.openedl[x] # IdealOpenedL[x] \/ o.closedl[x] # IdealClosedL[x] THEN "tcp-location-mismatch"
+                 ELSE IF \E x \in Locs, d \in Dirs : o.tlocb[x][d] # IdealTcpBytesL[x][d] THEN "tcp-location-bytes-mismatch"
+                 ELSE IF \E x \in Locs, s \in 1..NSU : o.upktsl[x][s] # IdealUdpPktsL[x][s] THEN "udp-location-packets-mismatch"
+                 ELSE IF \E x \in Locs, d \in Dirs : o.ulocb[x][d] # IdealUdpBytesL[x][d] THEN "udp-location-bytes-mismatch"
                  ELSE "" IN
          Flag(pv)
-    /\ UNCHANGED <<conn, rem, nconn, mech, ghost, ntraces, shown, nops, tr>>
+    /\ UNCHANGED <<conn, rem, cloc, nconn, mech, ghost, ntraces, shown, nops, tr>>
 
 TraceNext == TrReset \/ TrOpen \/ TrAuth \/ TrProbe \/ TrClose \/ TrNatAdd \/ TrPktC \/ TrPktT \/ TrNatRemove
              \/ TrDecreased \/ TrScrape
